@@ -40,6 +40,7 @@ Proof.
   exact (stream_roundtrip_lemma M marshal unmarshal_into compress decompress zero
            codec_roundtrip empty_is_zero compress_roundtrip compress_nonempty).
 Qed.
+Print Assumptions stream_roundtrip.
 
 (* ... followed by a clean end-of-stream when the stream ends cleanly there. *)
 Theorem stream_roundtrip_clean_end :
@@ -54,6 +55,7 @@ Proof.
   pose proof (stream_roundtrip spool smin rpool rmax msgs 1 [] CleanEOF Hp Hf) as H.
   rewrite app_nil_r in H. exact H.
 Qed.
+Print Assumptions stream_roundtrip_clean_end.
 
 (* The same through any segmentation of the transport (with C03). *)
 Theorem stream_roundtrip_any_transport :
@@ -67,6 +69,7 @@ Proof.
   intros spool smin rpool rmax msgs t Hp Hf Ht.
   rewrite recv_n_sim, Ht. apply stream_roundtrip_clean_end; assumption.
 Qed.
+Print Assumptions stream_roundtrip_any_transport.
 
 (* What earlier messages contained is irrelevant: with a non-empty encoding the
    holder's previous content never shows. *)
@@ -79,6 +82,7 @@ Proof.
   exact (holder_irrelevant_nonempty M marshal unmarshal_into compress decompress zero
            codec_roundtrip empty_is_zero compress_roundtrip compress_nonempty).
 Qed.
+Print Assumptions holder_irrelevant.
 End C01.
 Print Assumptions stream_roundtrip.
 Print Assumptions stream_roundtrip_clean_end.
